@@ -51,17 +51,31 @@ def pieces_for(args):
     zi = _G['zone_infos'][name]
     zs = ZoneSpecifier(zi, viewing_months=opts[0], in_place_transitions=opts[1], optimize_candidates=opts[2])
     grid = 86400
-    cur = obs(zs, t0)
-    ps = [[t0, cur]]
-    t = t0 + grid
+    # probe instants: a one-day grid, plus both sides of every transition the implementation itself lists for any year (a
+    # change that is undone within a day would otherwise go unseen); what is recorded is always an *observation*
+    probes = set(range(t0, t1, grid)) | {t1 - 1}
+    y0 = 2000 + t0 // (366 * 86400) - 1
+    y1 = 2000 + t1 // (365 * 86400) + 1
+    for y in range(y0, y1 + 1):
+        try:
+            zs.init_for_year(y)
+            for tr in zs.transitions:
+                e = getattr(tr, 'startEpochSecond', None)
+                if e is not None:
+                    for q in (e - 1, e):
+                        if t0 <= q < t1:
+                            probes.add(q)
+        except BaseException:
+            pass
+    probes = sorted(probes)
+    cur = obs(zs, probes[0])
+    ps = [[probes[0], cur]]
     n = 1
-    while True:
-        last = t >= t1
-        if last:
-            t = t1 - 1
+    prev_t = probes[0]
+    for t in probes[1:]:
         o = obs(zs, t)
         n += 1
-        lo = ps[-1][0] if last else max(t - grid, ps[-1][0])
+        lo = prev_t
         while o != cur:
             a, b = lo, t
             while b - a > 1:
@@ -75,9 +89,7 @@ def pieces_for(args):
             ps.append([b, nb])
             cur = nb
             lo = b
-        if last:
-            break
-        t += grid
+        prev_t = t
     return name, opts, ps, n
 
 
